@@ -257,3 +257,46 @@ func (c *codec) expectParse(want, in []byte) ([]byte, int) {
 	}
 	return nil, clJunk
 }
+
+// junkTail: for an input with ill-formed backslash sequences, the part that every skipping policy
+// must still decode. p = the last backslash that does not start a well-formed escape; whatever the
+// parser does with it, it cannot consume more than one full escape width from there (two for a
+// UTF-16 pair). If what follows in[p+W:] starts with backslash-free text and is of the exact
+// class (well-formed, non-adjacent escapes between text), the output must END with its decoding:
+// "every well-formed escape embedded between backslash-free text is replaced ... while that
+// surrounding text is preserved byte for byte" holds for every input.
+func (c *codec) junkTail(buf, in []byte) ([]byte, bool) {
+	p := -1
+	for i := 0; i < len(in); {
+		if in[i] != '\\' {
+			i++
+			continue
+		}
+		if n, _, ok := c.matchEscape(in[i:]); ok {
+			i += n
+		} else {
+			p = i
+			i++
+		}
+	}
+	if p < 0 {
+		return nil, false
+	}
+	w := c.width()
+	if c.name == "Utf16" {
+		w *= 2
+	}
+	if p+w >= len(in) {
+		return nil, false
+	}
+	for _, b := range in[p+1 : p+w+1] {
+		if b == '\\' { // another escape could start inside the window the parser may have consumed
+			return nil, false
+		}
+	}
+	res, class := c.expectParse(buf, in[p+w:])
+	if class != clEmbedded {
+		return nil, false
+	}
+	return res, true
+}
